@@ -378,7 +378,7 @@ def gen_object(rng, n_enums, big=False):
         repo = rng.choice(["linear", "branches", "parent+lib", "parent+lib"])
         bugs = ["BUG-211", "BUG-211 c", "BUG", "no bug", "BUG-xxx"] if repo == "parent+lib" else \
                ["BUG-111", "BUG-133", "BUG", "BUG-xxx", "BUG-177", "BUG-444"]
-        return {"kind": "ghist", "repo": repo, "bug": rng.choice(bugs)}
+        return {"kind": "ghist", "repo": repo, "bug": rng.choice(bugs), "shared_fmt": rng.random() < 0.5}
     return {"kind": "hdoc", "what": rng.choice(["cls", "obj", "derived", "method", "mcaller", "noted", "noted_method"]),
             "level": rng.choice([1, 2])}
 
@@ -419,6 +419,14 @@ def generate(rng, tier):
         # several values whose dict keys are equal across types (False / 0 / 0.0, True / 1 / 1.0) in one history
         for v in rng.sample(PP_VALUES[-6:], 2):
             objs.append({"kind": "pp", "value": v, "fmt_json": rng.random() < 0.3, "module_pp": rng.random() < 0.3})
+    if any(o["kind"] == "ghist" and o.get("shared_fmt") for o in objs) and rng.random() < 0.7:
+        # a second report served by the same formatter object
+        repo = rng.choice(["linear", "branches", "parent+lib"])
+        bugs = ["BUG-211", "BUG-211 c", "BUG"] if repo == "parent+lib" else ["BUG-111", "BUG-133", "BUG", "BUG-177"]
+        objs.append({"kind": "ghist", "repo": repo, "bug": rng.choice(bugs), "shared_fmt": True})
+        if rng.random() < 0.6:
+            # ... and little else going on: the two reports are consumed in turns
+            objs = [o for o in objs if o["kind"] == "ghist"] + [o for o in objs if o["kind"] != "ghist"][:1]
     long_run = rng.random() < 0.03
     if long_run:
         # a long history for the shared field types: many big tables with many different enum values
@@ -571,6 +579,20 @@ def generate(rng, tier):
                 del live_task[t]
     for t in sorted(live_task):
         ops.append({"op": "task_drain", "task": t})
+    shared = [j for j, o in enumerate(objs) if o["kind"] == "ghist" and o.get("shared_fmt")]
+    if len(shared) >= 2 and live_conf:
+        # the reports served by one formatter object, consumed in turns: one is read line by line while the
+        # other is printed
+        a, b = rng.sample(shared, 2)
+        conf = rng.choice(sorted(live_conf))
+        nc = rng.random() < 0.3
+        ops += [{"op": "obj_new", "slot": 0, "spec": a}, {"op": "obj_new", "slot": 1, "spec": b},
+                {"op": "task_start", "task": 0, "obj": 0, "conf": conf, "no_color": nc, "palette": None, "rec": 0,
+                 "late": rng.random() < 0.4},
+                {"op": "task_step", "task": 0, "n": rng.randint(1, 6)},
+                {"op": "render", "obj": 1, "conf": conf, "no_color": rng.random() < 0.3, "palette": None, "rec": 0,
+                 "how": rng.choice(["str", "lines"]), "late": False},
+                {"op": "task_drain", "task": 0}]
     return {"enums": enums, "inits": inits, "objs": objs, "ops": ops,
             "id_policy": rng.choice(["always", "always", "coin", "never"])}
 
